@@ -48,6 +48,12 @@ STRENGTH = {
  "C12-g": "(universal alphabet pass: `extend([])` / `extend` in the C12 alphabets of the ordered queues)",
  "C13-g": "`Ring` children (every poll wakes the next ring member, never itself) as a C13 population; a runaway poll is cut after 2000 polls of one child",
  "C16-g": "a third kind of future from upstream (`ItemAlt`): futures that panic in `poll` among stalled and ready ones in the adapter scenarios of C09/C10/C16",
+ "C05-h": "universal child-kind pass: every free-form scenario of every property can also push the kinds of children it does not list (Gate, Ready, WakeReady, Yield1, YieldGate, PanicOnce, DropPanic; for merges I, P, empty, I!, J, ~) as deviations",
+ "C12-h": "(universal child-kind pass: children that panic in `poll` in the C12 alphabets)",
+ "C08-h": "`MuU`: the unbounded merge over `Unpin` sources that live directly in its slots (a `!Unpin` source has to be boxed, which hides a relocation); scenarios in which the newest group ends first",
+ "C09-h": "the closure of `for_each_concurrent` panics for some items (`ItemAlt`); caught by the caller, the adapter is polled on",
+ "C13-h": "Starve epilogue with a push before every poll (take an item, add a stream) on merges with two and more groups",
+ "C16-h": "`BoZ`: `buffered_ordered` over futures with a zero-sized output (the k-th `()` is attributed to the k-th item pulled)",
  "C08-f": "static Unpin matrix of the five adapters over a `!Unpin` upstream",
 }
 for d in sorted(glob.glob("/verif/seeded/C*")):
